@@ -248,6 +248,7 @@ func OFloat(r int, path string) float64           { return accF("OFloat") }
 func OStr(r int, path string) string              { return accStr("OStr") }
 func OBool(r int, path string) bool               { return accBool("OBool") }
 func OLen(r int, path string) int                 { return int(accInt("OLen")) }
+func OKind(r int, path string) int                { return int(accInt("OKind")) }
 func Unreachable(why string) { panic("zzvrt.Unreachable: " + why) }
 
 // RunList executes the replays listed in $ZZ_LIST (lines: idx|Func|drawsfile|outdir).
